@@ -50,12 +50,14 @@ Definition spec_header_field : re :=
 
 (* request-line = method SP request-target [ SP "HTTP/" DIGIT "." DIGIT ]
    Specification decisions (DESIGN.md section 8): request-target is taken as
-   1*( any octet except SP, CR, LF ) -- the whitespace-delimited reading;
+   1*( VCHAR / obs-text ) -- no SP, no control character (C0, DEL): RFC 9112
+   section 3.2 builds the target from RFC 3986 characters; the bytes above 127
+   are left to the target policy (split_uri refuses them);
    method is a token without lower-case letters (waitress deliberately refuses
    lower-case methods; all registered methods are upper-case). *)
 Definition method_char : re :=
   Cls [(33,33); (35,39); (42,43); (45,46); (48,57); (65,90); (94,96); (124,124); (126,126)].
-Definition target_char : re := Cls [(0,9); (11,12); (14,31); (33,255)].
+Definition target_char : re := Cls [(33,126); (128,255)].
 Definition http_version : re :=
   Cat (Lit [72;84;84;80;47]) (Cat DIGIT (Cat (Sym 46) DIGIT)).
 Definition spec_request_line : re :=
